@@ -245,6 +245,13 @@ func (l *Link) Inject(data []byte) {
 	l.signalLocked()
 }
 
+// NSentInt is the number of bytes written so far (recorded stream offset).
+func (l *Link) NSentInt() int {
+	l.W.mu.Lock()
+	defer l.W.mu.Unlock()
+	return len(l.Sent)
+}
+
 // Pending reports bytes queued but not yet read.
 func (l *Link) Pending() int {
 	l.W.mu.Lock()
